@@ -1,7 +1,7 @@
 ; harness ListingAtStartUp assert L3-listed-iff-requested-matching-and-permitted expected unsat
 (set-logic ALL)
-(declare-const perm_Wallet1_Val_1 Bool)
-(assert perm_Wallet1_Val_1)
-(define-fun t483 () Bool (not perm_Wallet1_Val_1))
-(assert t483)
+(declare-const perm_Wallet1_acc1 Bool)
+(assert perm_Wallet1_acc1)
+(define-fun t392 () Bool (not perm_Wallet1_acc1))
+(assert t392)
 (check-sat)
